@@ -140,8 +140,27 @@ class TORCH(Backend):
         torch.set_num_threads(1)
         Backend.__init__(self)
 
+    flavours = None
+    flavour_counts = {}
+
     def arr(self, x):
-        return self.torch.tensor(np.asarray(x, dtype=np.float32), dtype=self.torch.float32)
+        t = self.torch.tensor(np.asarray(x, dtype=np.float32), dtype=self.torch.float32)
+        if self.flavours is None or t.dim() == 0 or t.numel() == 0:
+            return t
+        k = int(self.flavours.integers(1, 4)) if self.flavours.integers(3) else 0
+        name = ["contiguous", "strided-view", "transposed-storage", "offset-view"][k]
+        self.flavour_counts[name] = self.flavour_counts.get(name, 0) + 1
+        if k == 1:     # every second element of a wider buffer along the last axis
+            big = self.torch.zeros(tuple(t.shape[:-1]) + (2 * t.shape[-1],), dtype=self.torch.float32)
+            big[..., ::2] = t
+            return big[..., ::2]
+        if k == 2 and t.dim() == 2:   # same values, column-major storage
+            return t.t().contiguous().t()
+        if k == 3:
+            big = self.torch.zeros((t.shape[0] + 2,) + tuple(t.shape[1:]), dtype=self.torch.float32)
+            big[1:-1] = t
+            return big[1:-1]
+        return t
 
     def carr(self, x):
         return self.torch.tensor(np.asarray(x, dtype=np.complex64), dtype=self.torch.complex64)
